@@ -13,11 +13,18 @@ from vlib.runner import Failure
 def ws_sids(script):
     return {int(l.split(" ")[1]) for l in script if l.startswith("W ")}
 
+def is_text(escaped):
+    try: core.unesc(escaped).decode(); return True
+    except UnicodeDecodeError: return False
+
 def to_inprocess(script):
     out = ["RESET primary"]; ws = ws_sids(script)
     for l in script:
         p = l.split(" ", 2)
         if p[0] in ("T", "W"): out.append(f"SESS {p[1]}")
+        elif p[0] in ("XA", "XC"): out.append(f"CLOSE {p[1]}")       # however a connection ends, the session is released once
+        elif p[0] == "HA": pass                                       # an upload the peer abandons executes nothing
+        elif p[0] == "C" and not is_text(p[2] if len(p) > 2 else ""): pass   # bytes that are no text: the tcp loop drops the line, the websocket library answers with a close frame
         elif p[0] == "C" and int(p[1]) in ws:
             # ws_ops::on_message: the text of one message is split at `;`, every piece is a request of its own
             for piece in (p[2] if len(p) > 2 else "").split(";"): out.append(f"C {p[1]} {piece}")
@@ -60,7 +67,7 @@ def observed(lines):
             cur = l[2:]
             if cur == "DUMP": dumps.append([])
         elif l.startswith("B "):
-            q = l.split(" ", 2); streams.setdefault(int(q[1]), bytearray()).extend(core.unesc(q[2] if len(q) > 2 else ""))
+            q = l.split(" ", 2); streams.setdefault(int(q[1]), bytearray()).extend(core.unesc(q[2] if len(q) > 2 else "").replace(b"<close>", b""))
         elif l.startswith("H "): https.append(l[2:])
         elif l.startswith("D ") and cur == "DUMP":
             if l.startswith("D db ") or l.startswith("D k "): dumps[-1].append(core.OPID.sub("#", l))
@@ -122,6 +129,14 @@ def liveness_stage(pid, garbage, tag=None):
     for kind in ("T", "W"):
         for g in garbage:
             scripts.append(setup + [f"{kind} 2", "C 2 use-db t tok", f"C 2 {g}", "C 2 get zq", "C 1 get zq", "T 3", "C 3 use-db t tok", "C 3 get zq", "DUMP"])
+    # the http front end: the same hostile body several times over (it has four workers), an upload abandoned half way, then a plain request
+    http_probe = "H use-db t tok;get zq"
+    for g in garbage:
+        scripts.append(setup + [f"H {g}"] * 6 + [http_probe, "C 1 get zq", "T 3", "C 3 use-db t tok", "C 3 get zq", "DUMP"])
+        scripts.append(setup + [f"HA {g}"] * 6 + [http_probe, "C 1 get zq", "T 3", "C 3 use-db t tok", "C 3 get zq", "DUMP"])
+    # the websocket protocol itself: close frames with invalid / reserved status codes, a connection that just goes away
+    for end in ("XC 2 999", "XC 2 1005", "XC 2 1006", "XC 2 0", "XC 2 4999", "XA 2"):
+        scripts.append(setup + ["W 2", "C 2 use-db t tok", end, "W 4", "C 4 use-db t tok;get zq", "X 4", "C 1 get zq", "T 3", "C 3 use-db t tok", "C 3 get zq", "DUMP"])
     def one(ix_script):
         ix, script = ix_script
         d = os.path.join(core.SCRATCH, f"transport_{tag or pid}_live_{os.getpid()}_{ix}"); shutil.rmtree(d, ignore_errors=True); os.makedirs(d)
@@ -138,8 +153,16 @@ def liveness_stage(pid, garbage, tag=None):
             else:
                 if not bytes(streams.get(1, b"")).endswith(b"value 1\nok \n"): fails.append(Failure("other-session-not-served-after-client-input", f"administrator session received {bytes(streams.get(1, b''))[-120:]!r}"))
                 if not bytes(streams.get(3, b"")).endswith(b"value 1\nok \n"): fails.append(Failure("new-connection-not-served-after-client-input", f"new connection received {bytes(streams.get(3, b''))[-120:]!r}"))
-                s2 = bytes(streams.get(2, b""))
-                if not (s2.endswith(b"value 1\nok \n") or s2.endswith(b"value 1\nok \nok \n")): fails.append(Failure("same-session-not-served-after-client-input", f"the session that sent the line received {s2[-160:]!r}"))
+                if http_probe in script:
+                    hs = [l[2:] for l in lines if l.startswith("H ")]
+                    if not hs or hs[-1] != "empty;value 1\\x0a": fails.append(Failure("http-front-end-not-serving-after-client-input", f"the plain request after the hostile ones was answered {hs[-1:]!r}"))
+                if "W 4" in script:
+                    if "U 4 upgraded" not in lines: fails.append(Failure("websocket-front-end-not-accepting-after-client-input", "a new websocket connection was not upgraded"))
+                    elif not bytes(streams.get(4, b"")).replace(b"<close>", b"").endswith(b"value 1\nok \n"): fails.append(Failure("websocket-front-end-not-serving-after-client-input", f"the new websocket session received {bytes(streams.get(4, b''))[-120:]!r}"))
+                s2 = bytes(streams.get(2, b"")).replace(b"<close>", b"")
+                # (a websocket session that sends a frame that is no text is closed by the protocol — 1007 — and need not be served further)
+                ws_closed_by_protocol = "W 2" in script and any(l.startswith("C 2 ") and not is_text(l[4:]) for l in script)
+                if f"C 2 get zq" in script and not ws_closed_by_protocol and not (s2.endswith(b"value 1\nok \n") or s2.endswith(b"value 1\nok \nok \n")): fails.append(Failure("same-session-not-served-after-client-input", f"the session that sent the line received {s2[-160:]!r}"))
             for f in fails: f.case = ["# real-transport liveness: NVH_DIR=<dir> harness/target/debug/nvh transport <this file>"] + script; f.noshrink = True
             return fails
         finally:
